@@ -60,15 +60,23 @@ def flatArchive (root : FileRec) (cs : List FileRec) (items : List GoodbyeItem) 
 
 /-! ### the encoder side -/
 
+/-- (`hreg`: the payload writer copies exactly `f.size` bytes and fails on shorter content, so
+    `leafBody` describes a regular file's bytes only when size and content agree) -/
 theorem tarOne_leaf (fuel : Nat) (f : FileRec) (rest : List FileRec)
-    (hk : f.kind = .reg ∨ f.kind = .symlink ∨ f.kind = .device) :
+    (hk : f.kind = .reg ∨ f.kind = .symlink ∨ f.kind = .device)
+    (hreg : f.kind = .reg → f.size = u64len f.data ∧ f.data.length < 2^63) :
     tarOne (fuel + 1) f rest = some (leafBody f, rest) := by
   rw [tarOne]
-  rcases hk with hk | hk | hk <;>
-    simp [hk, leafBody, leafTail, List.append_assoc]
+  rcases hk with hk | hk | hk
+  · obtain ⟨hsz, hdata⟩ := hreg hk
+    simp [hk, leafBody, leafTail, List.append_assoc, not_short_of_u64len hsz hdata,
+      take_size_of_u64len hsz hdata]
+  · simp [hk, leafBody, leafTail, List.append_assoc]
+  · simp [hk, leafBody, leafTail, List.append_assoc]
 
 theorem tarChildren_leaves (dir : Bytes) (cs : List FileRec)
-    (hcs : ∀ f ∈ cs, (f.kind = .reg ∨ f.kind = .symlink ∨ f.kind = .device) ∧ f.parent = dir) :
+    (hcs : ∀ f ∈ cs, (f.kind = .reg ∨ f.kind = .symlink ∨ f.kind = .device) ∧ f.parent = dir ∧
+      (f.kind = .reg → f.size = u64len f.data ∧ f.data.length < 2^63)) :
     ∀ (fuel n : Nat) (items : List GoodbyeItem), cs.length + 1 ≤ fuel →
       ∃ items', items'.length = items.length + cs.length ∧
         tarChildren fuel dir cs n items = some (childrenBytes cs, items', []) := by
@@ -80,7 +88,7 @@ theorem tarChildren_leaves (dir : Bytes) (cs : List FileRec)
   | cons f cs ih =>
     intro fuel n items hf
     obtain ⟨k, rfl⟩ : ∃ k, fuel = k + 1 + 1 := ⟨fuel - 2, by simp at hf; omega⟩
-    obtain ⟨hk, hp⟩ := hcs f (by simp)
+    obtain ⟨hk, hp, hreg⟩ := hcs f (by simp)
     have hno : f.kind ≠ .other := by rcases hk with h | h | h <;> simp [h]
     obtain ⟨items', hlen, hrec⟩ := ih (fun g hg => hcs g (by simp [hg])) (k + 1)
       (n + ((encElem (fnameElem f)).length + (leafBody f).length))
@@ -89,14 +97,15 @@ theorem tarChildren_leaves (dir : Bytes) (cs : List FileRec)
       (by simp at hf; omega)
     refine ⟨items', by simp at hlen ⊢; omega, ?_⟩
     rw [tarChildren]
-    simp only [hp, ne_eq, not_true_eq_false, ↓reduceIte, hno, tarOne_leaf k f cs hk]
+    simp only [hp, ne_eq, not_true_eq_false, ↓reduceIte, hno, tarOne_leaf k f cs hk hreg]
     simp only [fnameElem] at hrec
     simp only [hrec, childrenBytes, fnameElem, List.append_assoc]
 
 /-- the encoder's output on a flat directory is `flatArchive` for some goodbye table of
     `children.length + 1` items ending in the tail marker -/
 theorem tarStream_flat (root : FileRec) (cs : List FileRec) (hrk : root.kind = .dir)
-    (hcs : ∀ f ∈ cs, (f.kind = .reg ∨ f.kind = .symlink ∨ f.kind = .device) ∧ f.parent = root.path) :
+    (hcs : ∀ f ∈ cs, (f.kind = .reg ∨ f.kind = .symlink ∨ f.kind = .device) ∧ f.parent = root.path ∧
+      (f.kind = .reg → f.size = u64len f.data ∧ f.data.length < 2^63)) :
     ∃ items : List GoodbyeItem, ∃ hne : items ≠ [],
       (items.getLast hne).hash = Gen.CaFormatGoodbyeTailMarker ∧ items.length = cs.length + 1 ∧
       tarStream (root :: cs) = some (flatArchive root cs items) := by
@@ -543,7 +552,7 @@ theorem untar_tar_flat (root : FileRec) (children : List FileRec)
       untar b = .ok (.dir [dot] ⟨root.uid, root.gid, root.mode, root.mtime, root.xattrs⟩ ::
         children.map leafNode) := by
   obtain ⟨items, hne, htail, hlen, htar⟩ := tarStream_flat root children hrk
-    (fun f hf => ⟨(hch f hf).1, (hch f hf).2.1⟩)
+    (fun f hf => ⟨(hch f hf).1, (hch f hf).2.1, (hch f hf).2.2.2.2.1⟩)
   exact ⟨_, htar, untar_flatArchive root children items hrx hch ⟨⟨hne, htail⟩, by rw [hlen]; exact hsize⟩⟩
 
 end Desync
